@@ -8,9 +8,11 @@ name=$1; nosuite=${2:-}
 d=/verif/seeded/$name; base=$(cat "$d/base" 2>/dev/null || cat /verif/seeded/BASE_COMMIT)
 wt=$(mktemp -d /tmp/sconf.XXXXXX); rmdir "$wt"
 git -C /repo worktree add -q --detach "$wt" "$base" || exit 2
-cleanup() { git -C /repo worktree remove --force "$wt" >/dev/null 2>&1; rm -rf "$wt"; }
+cleanup() { git -C /repo worktree remove --force "$wt" >/dev/null 2>&1; rm -rf "$wt" "${TMPDIR:-/nonexistent}"; }
 trap cleanup EXIT
 . /verif/env.sh
+# the suite has tests that clone into fixed paths under $TMPDIR: give every confirmation its own
+export TMPDIR=$(mktemp -d /tmp/sconf_tmp.XXXXXX)
 cd "$wt"
 res() { python3 - "$d/confirm.json" "$@" <<'P'
 import json,sys,os,time
@@ -19,6 +21,7 @@ j=json.load(open(p)) if os.path.exists(p) else {}
 j.update(kv); j['when']=time.strftime('%Y-%m-%dT%H:%M:%S'); json.dump(j,open(p,'w'),indent=1)
 P
 }
+case "$nosuite" in --only-pkgs=*) [ -f "$d/confirm.json" ] && cp "$d/confirm.json" "$d/confirm_full_run.json";; esac
 rm -f "$d/confirm.json"
 git apply "$d/patch.diff" || { res applies=no; exit 1; }
 res applies=yes base=$base
